@@ -8,15 +8,18 @@ SPEC = dict(
                "high probability and databases are built so that each field changes the answer, which is the two-step pattern that exposes a field "
                "missing from the cache key. After every search the uncached engine is asked 5 times (stable-reference rule) and the answers compared. "
                "An eighth of the histories use databases of 150-650 entries with limits above 100 (answers of hundreds of results, repeated), a quarter "
-               "contain long queries (up to 4 KiB) that agree up to a byte offset near a power of two or the 1000-byte bound and differ afterwards.",
+               "contain long queries (up to 4 KiB) that agree up to a byte offset near a power of two or the 1000-byte bound and differ afterwards; a third "
+               "contain queries that are equal only after a Unicode lower-casing (U+212A, U+0130, U+017F); a quarter start with look-alike requests in sequence "
+               "(platform lists and boost maps that read the same once written without quotes); every word of the query-analysis vocabulary (also with an "
+               "ending glued on) in front of every phrase it names is asked through one cache in lower and then in upper case.",
     level_note="Reference = SearchUniversal on the same object (index staleness is C03's business). Tie-tolerant comparison; an unstable reference makes the case inconclusive, never red.",
     engines=[dict(name="cachehist", shards=T(16, 16), timeout=T(900, 3600))],
     rule="case = one search step inside a history; non-trivial = a step whose options differ in exactly one field from the previous search of the same "
          "(case-folded) query AND whose fresh answer differs from that previous answer ('answer-changing delta'), distinct by (history, query, field, step).",
-    floors=T({"hit-steps": 1000, "miss-steps": 1500, "hits-with-over-100-results": 20, "hits-with-query-over-1000-bytes": 15, "long-twin-queries": 100, "repeat-hit": 300, "case-variant-hit": 50, "op-update-database": 100, "op-advance": 100,
+    floors=T({"look-alike-request-steps": 1000, "analysis-vocabulary-sweep": 5000, "unicode-case-twin-queries": 100, "hit-steps": 1000, "miss-steps": 1500, "hits-with-over-100-results": 20, "hits-with-query-over-1000-bytes": 15, "long-twin-queries": 100, "repeat-hit": 300, "case-variant-hit": 50, "op-update-database": 100, "op-advance": 100,
               "answer-changing-delta:AllPlatforms": 20, "answer-changing-delta:TopTermsCap": 5, "answer-changing-delta:Limit": 20,
               "answer-changing-delta:UseNLP": 20, "answer-changing-delta:PipelineOnly": 20, "answer-changing-delta:Platforms": 10, "answer-changing-delta:NoCrossPlatform": 10, "distinct_nontrivial": 300},
-             {"hit-steps": 15000, "miss-steps": 15000, "hits-with-over-100-results": 500, "hits-with-query-over-1000-bytes": 300, "long-twin-queries": 2000, "repeat-hit": 3000, "case-variant-hit": 500, "op-update-database": 1000, "op-advance": 1000,
+             {"look-alike-request-steps": 40000, "analysis-vocabulary-sweep": 5000, "unicode-case-twin-queries": 4000, "hit-steps": 15000, "miss-steps": 15000, "hits-with-over-100-results": 500, "hits-with-query-over-1000-bytes": 300, "long-twin-queries": 2000, "repeat-hit": 3000, "case-variant-hit": 500, "op-update-database": 1000, "op-advance": 1000,
               "answer-changing-delta:AllPlatforms": 200, "answer-changing-delta:TopTermsCap": 50, "answer-changing-delta:Limit": 200,
               "answer-changing-delta:UseNLP": 200, "answer-changing-delta:PipelineOnly": 200, "answer-changing-delta:Platforms": 100, "answer-changing-delta:NoCrossPlatform": 100, "distinct_nontrivial": 3000}),
     assumptions=["whitespace-padded variants are outside the property's quantifier (repeats and case variants) and are not generated",
